@@ -32,6 +32,8 @@ pub struct Engine<'a, L> {
     list_node: HashMap<Box<str>, usize>,
     // Mark index of bnode as compound literals
     compound_literals: HashSet<usize>,
+    // Number of (graph, node) slots in which each bnode id is described (or names a graph)
+    described: HashMap<Box<str>, usize>,
 }
 
 impl<'a, L> Engine<'a, L> {
@@ -46,6 +48,7 @@ impl<'a, L> Engine<'a, L> {
             list_seeds: Vec::new(),
             list_node: HashMap::new(),
             compound_literals: HashSet::new(),
+            described: HashMap::new(),
         }
     }
 
@@ -138,6 +141,14 @@ impl<'a, L> Engine<'a, L> {
     pub fn into_json(mut self) -> Result<JsonValue<()>, JsonLdError> {
         // check all list_seeds to mark them, if appropriate, as list nodes,
         // and also recursively mark other list nodes (traversing back rdf:rest links)
+        // (a bnode that is also described in another graph, or that names a graph,
+        // can not be a list node: its other descriptions would be lost or disconnected from the list)
+        for (inode, node) in self.node.iter().enumerate() {
+            let s_id = &self.gs_id[inode].1;
+            if !node.is_empty() && s_id.starts_with("_:") {
+                *self.described.entry(s_id.clone()).or_default() += 1;
+            }
+        }
         let list_seeds = std::mem::take(&mut self.list_seeds);
         for inode in list_seeds {
             self.mark_list_node(inode);
@@ -164,6 +175,9 @@ impl<'a, L> Engine<'a, L> {
     fn mark_list_node(&mut self, inode: usize) {
         let (g_id, s_id) = &self.gs_id[inode];
         debug_assert!(s_id.starts_with("_:"), "{}", s_id);
+        if self.described.get(s_id) != Some(&1) {
+            return;
+        }
         if let Some(Some((iparent, pp))) = self.unique_parent.get(s_id) {
             if self.options.processing_mode() == JsonLd1_0 && pp.as_ref() == RDF_FIRST {
                 return;
